@@ -1,1 +1,2 @@
 pub mod slotmap;
+pub mod slot;
